@@ -60,6 +60,12 @@ pub enum Fault {
     PollEintr { pid: u32, nth: u64 },
     /// at scheduling step `step` the virtual clock jumps forward by `ns`
     TimeJump { step: u64, ns: u64 },
+    /// at scheduling step `step` the program closes its standard input (descriptor 0 becomes free,
+    /// so the next descriptor the library creates or receives is number 0)
+    CloseStdin { step: u64 },
+    /// at scheduling step `step` the program spawns an unrelated, long-lived child process with
+    /// fork+exec: it inherits a copy of every descriptor that is not close-on-exec
+    ExecChild { step: u64 },
     /// n-th transmission attempt of process: xor byte at `off` (mod len) of the data with `xor`;
     /// iov selects header (0) or body (1)
     Corrupt { pid: u32, nth: u64, iov: u32, off: u64, xor: u8 },
@@ -174,6 +180,9 @@ pub struct Stats {
     pub f_timejump: u64,
     pub f_corrupt: u64,
     pub f_crash: u64,
+    pub f_close_stdin: u64,
+    pub f_exec_child: u64,
+    pub inherited_fds: u64,
     pub p_send_blocked: u64,
     pub p_recv_blocked: u64,
     pub p_followup_blocked: u64,
@@ -449,6 +458,34 @@ fn reschedule(my: usize, exiting: bool) {
                     gl.stats.f_timejump += 1;
                     trace(S_FAULT, 6, ns as i64, 0);
                 }
+            }
+        }
+        for i in 0..gl.cfg.faults.len() {
+            match gl.cfg.faults[i] {
+                Fault::CloseStdin { step } if step == gl.steps => {
+                    if !gl.fds[0].open {
+                        unsafe { raw6(libc::SYS_close, 0, 0, 0, 0, 0, 0) };
+                        gl.stats.f_close_stdin += 1;
+                        trace(S_FAULT, 8, 0, 0);
+                    }
+                },
+                Fault::ExecChild { step } if step == gl.steps => {
+                    let mut n = 0;
+                    for fd in 0..MAXFD {
+                        if gl.fds[fd].open {
+                            let fl = unsafe { raw6(libc::SYS_fcntl, fd as i64, libc::F_GETFD as i64, 0, 0, 0, 0) };
+                            if fl >= 0 && fl & libc::FD_CLOEXEC as i64 == 0 {
+                                // the child's inherited copy: never closed, not in the ledger
+                                unsafe { raw6(libc::SYS_fcntl, fd as i64, libc::F_DUPFD_CLOEXEC as i64, 9000, 0, 0, 0) };
+                                n += 1;
+                            }
+                        }
+                    }
+                    gl.stats.f_exec_child += 1;
+                    gl.stats.inherited_fds += n;
+                    trace(S_FAULT, 9, n as i64, 0);
+                },
+                _ => {},
             }
         }
         let n = gl.nslots;
@@ -740,6 +777,13 @@ pub fn disarm_crash(pid: u32) {
 pub fn seam_calls_since_arm(pid: u32) -> u64 {
     let p = &g().procs[pid as usize];
     p.seam_calls - p.crash_base
+}
+/// Remove all pending per-call faults (used once the operation under test has returned).
+pub fn clear_faults() {
+    g().cfg.faults.clear();
+}
+pub fn tx_attempts_of(pid: u32) -> u64 {
+    g().procs[pid as usize].tx_attempts
 }
 pub fn crashed(pid: u32) -> bool {
     g().procs[pid as usize].crashed
